@@ -68,6 +68,8 @@ ASSUMPTIONS = [
     "(repeatable) random_number sequence",
 ]
 
+NSTATE_FULL = 30       # full matrices up to this state size, else probes
+NPROBES = 6
 FFLAGS = ["-O0", "-fcheck=bounds", "-ffree-line-length-none", "-w"]
 
 
@@ -163,7 +165,7 @@ def exact_check(case, adj):
     res = {"status": "ok", "offdiag": False, "zero_trip": False}
     lay = Layout(case)
     res["nstate"] = nst = lay.nstate
-    if nst == 0 or nst > 30:
+    if nst == 0:
         raise HarnessError(f"state size {nst}")
     try:
         tl_tree = psy.read(case["source"])
@@ -194,6 +196,20 @@ def exact_check(case, adj):
             vec[pos] += val
         return vec
 
+    def comb(cols, one, two):
+        if one == two:
+            return [3 * x for x in cols[one]]
+        return [2 * x + y for x, y in zip(cols[one], cols[two])]
+
+    full = nst <= NSTATE_FULL
+    if full:
+        inputs = [unit((col, 1)) for col in range(nst)]
+    else:
+        # probe mode (large states): deterministic small-integer vectors
+        inputs = [[((pos * 7 + num * 13 + pos * num) % 5) - 2
+                   for pos in range(nst)] for num in range(NPROBES)]
+    sample = [(0, nst - 1), (nst // 2, 0), (nst - 1, nst // 3)]
+
     # ---- TL ------------------------------------------------------------
     amat = []
     try:
@@ -207,28 +223,25 @@ def exact_check(case, adj):
         if any(v != 0 for v in zero):
             raise HarnessError(f"generated TL is not linear: TL(0) = "
                                f"{zero}\n{case['source']}")
-        for col in range(nst):
-            out, _, _ = lay.run(tl_tree, case["routine"], unit((col, 1)))
-            amat.append(out)
-        sample = [(0, nst - 1), (nst // 2, 0), (nst - 1, nst // 3)]
-        for one, two in sample:
-            out, _, _ = lay.run(tl_tree, case["routine"],
-                                unit((one, 2), (two, 1)))
-            want = [2 * x + y for x, y in zip(amat[one], amat[two])]
-            if one == two:
-                want = [3 * x for x in amat[one]]
-            if out != want:
-                raise HarnessError(f"generated TL is not linear\n"
-                                   f"{case['source']}")
+        for vec in inputs:
+            amat.append(lay.run(tl_tree, case["routine"], vec)[0])
+        if full:
+            for one, two in sample:
+                out, _, _ = lay.run(tl_tree, case["routine"],
+                                    unit((one, 2), (two, 1)))
+                if out != comb(amat, one, two):
+                    raise HarnessError(f"generated TL is not linear\n"
+                                       f"{case['source']}")
     except (I.OutOfDomain, I.Unsupported, I.StepLimit) as err:
         return dict(res, status="discard",
                     why=f"tl:{type(err).__name__}")
     except I.InterpError as err:
         raise HarnessError(f"generated TL is ill-formed: {err}\n"
                            f"{case['source']}")
-    # amat[i] = column i of A  (A[j][i] = amat[i][j])
-    res["offdiag"] = any(amat[i][j] != 0 for i in range(nst)
-                         for j in range(nst) if i != j)
+    # full mode: amat[i] = column i of A  (A[j][i] = amat[i][j])
+    if full:
+        res["offdiag"] = any(amat[i][j] != 0 for i in range(nst)
+                             for j in range(nst) if i != j)
 
     # ---- adjoint -------------------------------------------------------
     bmat = []
@@ -240,23 +253,22 @@ def exact_check(case, adj):
         if any(v != 0 for v in zero):
             return dict(res, status="fail", bucket="exact:adjoint-affine",
                         msg=f"adjoint maps 0 to a non-zero state {zero}")
-        for col in range(nst):
-            out, changed, _ = lay.run(ad_tree, ad_name, unit((col, 1)))
+        for vec in inputs:
+            out, changed, _ = lay.run(ad_tree, ad_name, vec)
             if changed:
                 return dict(res, status="fail",
                             bucket="exact:passive-changed",
                             msg=f"adjoint: {changed}")
             bmat.append(out)
-        for one, two in sample:
-            out, _, _ = lay.run(ad_tree, ad_name, unit((one, 2), (two, 1)))
-            want = [2 * x + y for x, y in zip(bmat[one], bmat[two])]
-            if one == two:
-                want = [3 * x for x in bmat[one]]
-            if out != want:
-                return dict(res, status="fail",
-                            bucket="exact:adjoint-nonlinear",
-                            msg="adjoint is not linear in the active "
-                                "variables")
+        if full:
+            for one, two in sample:
+                out, _, _ = lay.run(ad_tree, ad_name,
+                                    unit((one, 2), (two, 1)))
+                if out != comb(bmat, one, two):
+                    return dict(res, status="fail",
+                                bucket="exact:adjoint-nonlinear",
+                                msg="adjoint is not linear in the active "
+                                    "variables")
     except (I.OutOfDomain, I.Unsupported, I.StepLimit) as err:
         return dict(res, status="discard",
                     why=f"ad:{type(err).__name__}:{str(err)[:40]}")
@@ -264,6 +276,19 @@ def exact_check(case, adj):
         return dict(res, status="fail", bucket="exact:adjoint-runtime",
                     msg=f"adjoint fails at run time: "
                         f"{type(err).__name__}: {err}")
+    if not full:
+        # <A x_k, y_l> == <x_k, A* y_l> for all probe pairs
+        for knum, xin in enumerate(inputs):
+            for lnum, yin in enumerate(inputs):
+                lhs = sum(a * y for a, y in zip(amat[knum], yin))
+                rhs = sum(x * b for x, b in zip(xin, bmat[lnum]))
+                if lhs != rhs:
+                    return dict(
+                        res, status="fail", bucket="exact:transpose",
+                        msg=(f"<A x,y> = {fmt(lhs)} but <x,A* y> = "
+                             f"{fmt(rhs)} for probe vectors {knum},{lnum} "
+                             f"(n={case['n']}, state size {nst})"))
+        return res
     # B must be A^T:  B[j][i] (= bmat[i][j]) == A[i][j] (= amat[j][i])
     bad = [(i, j) for i in range(nst) for j in range(nst)
            if bmat[i][j] != amat[j][i]]
@@ -276,6 +301,26 @@ def exact_check(case, adj):
                  f"d({lay.names[j]}) = {fmt(amat[j][i])} but d(AD "
                  f"{lay.names[j]})/d({lay.names[i]}) = {fmt(bmat[i][j])}"))
     return res
+
+
+def scaled_case(case, nbig):
+    """The same kernel at extent n = nbig (bounds from the generator,
+    passive data repeated cyclically)."""
+    big = dict(case)
+    big["n"] = nbig
+    big["oracle"] = "exact"
+    big["args"] = []
+    for arg in case["args"]:
+        new = dict(arg)
+        new["bounds"] = arg["bounds_big"]
+        if arg["name"] == "n":
+            new["data"] = [nbig]
+        elif "data" in arg:
+            total = Layout.size(new)
+            new["data"] = [arg["data"][i % len(arg["data"])]
+                           for i in range(total)]
+        big["args"].append(new)
+    return big
 
 
 # ----------------------------------------------------------------------
@@ -358,6 +403,18 @@ def evaluate(case, want_harness, workdir):
     if want_harness:
         res["harness_run"] = True
         bad = harness_check(case, adj, harness, workdir)
+        if bad and bad[0] in ("harness:failed", "harness:run") and \
+                "bounds_big" in case["args"][0]:
+            # The harness runs at n = 20. Decide with the exact oracle at
+            # that extent whether the adjoint is wrong there.
+            big = scaled_case(case, gen_tl.NBIG)
+            res20 = exact_check(big, adj)
+            if res20["status"] == "fail":
+                res20["adjoint"] = adj
+                res20["case"] = big
+                res20["harness_run"] = True
+                res20["harness_refused"] = False
+                return res20
         if bad:
             res.update(status="fail", bucket=bad[0], msg=bad[1],
                        harness=harness)
@@ -372,7 +429,266 @@ def has_control(case):
 # ----------------------------------------------------------------------
 # known-finding classifiers (semantic features of the failing input)
 # ----------------------------------------------------------------------
-CLASSIFIERS = {}
+def _active_syms(routine, case):
+    return [routine.symbol_table.lookup(name) for name in case["active"]]
+
+
+def _split_terms(node, sign, out):
+    """[(term, '+'|'-')] of a sum, as AssignmentTrans._split_nodes sees it
+    (binary + and - only; a unary minus stays part of its term)."""
+    from psyclone.psyir.nodes import BinaryOperation
+    if isinstance(node, BinaryOperation) and node.operator in (
+            BinaryOperation.Operator.ADD, BinaryOperation.Operator.SUB):
+        _split_terms(node.children[0], sign, out)
+        flip = node.operator == BinaryOperation.Operator.SUB
+        other = {"+": "-", "-": "+"}[sign] if flip else sign
+        _split_terms(node.children[1], other, out)
+    else:
+        out.append((node, sign))
+
+
+def cls_inc_term_subtracted(case):
+    """Some active assignment, in the form PSyAD's documented
+    pre-processing (array notation -> loops, expansion) gives it, has as
+    its FIRST term in the LHS variable itself ('increment' term x*A of
+    A = x*A + ...) a term that is subtracted with a binary minus:
+    A = B - x*A."""
+    from psyclone.psyad.transformations.preprocess import preprocess_trans
+    from psyclone.psyir.nodes import Assignment, Reference, Routine
+    psy.reset_state()
+    tree = psy.read(case["source"])
+    preprocess_trans(tree, list(case["active"]))
+    routine = tree.walk(Routine)[0]
+    active = _active_syms(routine, case)
+    for asg in tree.walk(Assignment):
+        if asg.lhs.symbol not in active:
+            continue
+        lhs_txt = asg.lhs.debug_string().replace(" ", "").lower()
+        terms = []
+        _split_terms(asg.rhs, "+", terms)
+        for term, sign in terms:
+            refs = [r for r in term.walk(Reference) if r.symbol in active]
+            if not refs:
+                continue
+            txt = refs[0].debug_string().replace(" ", "").lower()
+            if txt == lhs_txt:
+                if sign == "-":
+                    return True
+                break
+    return False
+
+
+def _trace_tl(case, assign_hook=None, loop_hook=None):
+    """Execute the TL once (state = all ones) with hooks."""
+    from psyclone.psyir.nodes import Assignment, Loop
+    psy.reset_state()
+    tree = psy.read(case["source"])
+    lay = Layout(case)
+    acts = lay.actuals([1] * lay.nstate)
+    itp = I.Interp(tree)
+
+    def on_assign(interp, node, frame):
+        assign_hook(interp, node, frame)
+        interp.exec_nohook(node, frame)
+
+    def on_loop(interp, node, frame):
+        loop_hook(interp, node, frame)
+        interp.exec_nohook(node, frame)
+    if assign_hook:
+        itp.type_hooks[Assignment] = on_assign
+    if loop_hook:
+        itp.type_hooks[Loop] = on_loop
+    itp.run(case["routine"], acts)
+
+
+def _same_symbol_refs(node):
+    """(lhs, [rhs ArrayReferences to the LHS symbol spelled differently])"""
+    from psyclone.psyir.nodes import ArrayReference
+    lhs = node.lhs
+    if not isinstance(lhs, ArrayReference):
+        return lhs, []
+    ltxt = lhs.debug_string().replace(" ", "").lower()
+    out = []
+    for ref in node.rhs.walk(ArrayReference):
+        if ref.symbol is lhs.symbol and \
+                ref.debug_string().replace(" ", "").lower() != ltxt:
+            out.append(ref)
+    return lhs, out
+
+
+def _locs(interp, ref, frame):
+    base = interp.lookup(ref.symbol, frame)
+    view = interp.section_view(base, ref.indices, frame, ref)
+    return [view.rflat(i) for i in range(view.size)]
+
+
+def cls_lhs_alias(case):
+    """In some executed instance of an active assignment, a right-hand
+    side reference to the LHS array that is SPELLED differently from the
+    LHS designates the same element as the LHS (same position for array
+    sections): A(i) = x*A(i) + y*A(k) with i == k at run time."""
+    found = []
+
+    def hook(interp, node, frame):
+        if node.lhs.symbol.name.lower() not in case["active"]:
+            return
+        lhs, refs = _same_symbol_refs(node)
+        if not refs:
+            return
+        lloc = _locs(interp, lhs, frame)
+        for ref in refs:
+            rloc = _locs(interp, ref, frame)
+            if len(rloc) == 1 and len(lloc) > 1:
+                rloc = rloc * len(lloc)
+            if any(x == y for x, y in zip(lloc, rloc)):
+                found.append(1)
+    try:
+        _trace_tl(case, assign_hook=hook)
+    except (I.Unsupported, I.OutOfDomain, I.InterpError):
+        pass
+    return bool(found)
+
+
+def cls_section_overlap(case):
+    """An executed array-section assignment to an active array reads, on
+    its right-hand side, a DIFFERENT element of the same array than the
+    one it is writing at that position while that element is also written
+    by the statement (overlapping sections: a(2:n) = a(1:n-1) + ...)."""
+    found = []
+
+    def hook(interp, node, frame):
+        if not node.is_array_assignment:
+            return
+        if node.lhs.symbol.name.lower() not in case["active"]:
+            return
+        lhs, refs = _same_symbol_refs(node)
+        if not refs:
+            return
+        lloc = _locs(interp, lhs, frame)
+        for ref in refs:
+            rloc = _locs(interp, ref, frame)
+            if set(lloc) & set(rloc) and rloc != lloc:
+                found.append(1)
+    try:
+        _trace_tl(case, assign_hook=hook)
+    except (I.Unsupported, I.OutOfDomain, I.InterpError):
+        pass
+    return bool(found)
+
+
+def _unit_step(node):
+    """PSyAD's own test for 'no offset needed'."""
+    from psyclone.psyir.nodes import Literal
+    return isinstance(node.step_expr, Literal) and \
+        node.step_expr.value.strip() in ("1", "-1")
+
+
+def _is_active_loop(node, case):
+    from psyclone.psyir.nodes import Reference
+    return any(r.symbol.name.lower() in case["active"]
+               for r in node.walk(Reference))
+
+
+def cls_zero_trip_reversed(case):
+    """An active loop whose step PSyAD does not recognise as the literal
+    1 or -1 executes ZERO times for the given bounds, while the reversed
+    loop 'stop - MOD(stop-start, step), start, -step' documented for the
+    adjoint has a non-zero trip count (e.g. do i = 3, 1, 3)."""
+    found = []
+
+    def hook(interp, node, frame):
+        if _unit_step(node) or not _is_active_loop(node, case):
+            return
+        start, step, trips = interp.loop_values(node, frame)
+        stop = interp.eval_int(node.stop_expr, frame)
+        if trips != 0:
+            return
+        new_start = stop - I.ftn_mod(stop - start, step)
+        new_trips = max(0, I.ftn_div(start - new_start - step, -step))
+        if new_trips > 0:
+            found.append(1)
+    try:
+        _trace_tl(case, loop_hook=hook)
+    except (I.Unsupported, I.OutOfDomain, I.InterpError):
+        pass
+    return bool(found)
+
+
+def cls_loop_offset_precedence(case):
+    """An executed active loop with a step other than the literal 1/-1
+    whose bound/step expressions, pasted UNPARENTHESISED into
+    'MOD(<stop>-<start>,<step>)', give a different value than
+    MOD(stop-start, step): e.g. start = 'n - 1' (stop-n - 1)."""
+    from psyclone.psyir.backend.fortran import FortranWriter
+    from psyclone.psyir.frontend.fortran import FortranReader
+    found = []
+
+    def hook(interp, node, frame):
+        if _unit_step(node) or not _is_active_loop(node, case):
+            return
+        start, step, _ = interp.loop_values(node, frame)
+        stop = interp.eval_int(node.stop_expr, frame)
+        writer = FortranWriter()
+        text = (f"mod({writer(node.stop_expr)}-{writer(node.start_expr)},"
+                f"{writer(node.step_expr)})")
+        try:
+            expr = FortranReader().psyir_from_expression(
+                text, node.scope.symbol_table)
+            val = interp.eval_int(expr, frame)
+        except I.InterpError:
+            raise
+        except Exception:        # pylint: disable=broad-except
+            return               # not even parsable: PSyAD refuses/crashes
+        if val != I.ftn_mod(stop - start, step):
+            found.append(1)
+    try:
+        _trace_tl(case, loop_hook=hook)
+    except (I.Unsupported, I.OutOfDomain, I.InterpError):
+        pass
+    return bool(found)
+
+
+def cls_harness_nonreal_arg(case):
+    """Harness failures of kernels that have an integer or logical scalar
+    argument which does not dimension an array argument (the harness
+    calls random_number() on it and multiplies logicals)."""
+    if not str(case.get("bucket", "")).startswith("harness:compile"):
+        return False
+    dims = set()
+    psy.reset_state()
+    from psyclone.psyir.nodes import Reference, Routine
+    from psyclone.psyir.symbols import ArrayType
+    routine = psy.read(case["source"]).walk(Routine)[0]
+    for sym in routine.symbol_table.argument_datasymbols:
+        if sym.is_array:
+            for dim in sym.shape:
+                if isinstance(dim, ArrayType.ArrayBounds):
+                    for bnd in (dim.lower, dim.upper):
+                        for ref in bnd.walk(Reference):
+                            dims.add(ref.symbol.name.lower())
+    for arg in case["args"]:
+        if arg["typ"] in ("int", "log") and arg["name"] not in dims:
+            return True
+    return False
+
+
+def _exact_only(fun):
+    def inner(case):
+        if not str(case.get("bucket", "")).startswith("exact:"):
+            return False
+        return fun(case)
+    inner.__doc__ = fun.__doc__
+    return inner
+
+
+CLASSIFIERS = {
+    "inc_term_subtracted": _exact_only(cls_inc_term_subtracted),
+    "lhs_alias": _exact_only(cls_lhs_alias),
+    "section_overlap": _exact_only(cls_section_overlap),
+    "zero_trip_reversed": _exact_only(cls_zero_trip_reversed),
+    "loop_offset_precedence": _exact_only(cls_loop_offset_precedence),
+    "harness_nonreal_arg": cls_harness_nonreal_arg,
+}
 
 
 # ----------------------------------------------------------------------
@@ -413,6 +729,7 @@ def run(ctx):
             ctx.label("harness_run" + ("" if case["harness_ok"]
                                        else "_nonreal_args"))
         if status == "fail":
+            case = res.get("case", case)
             case["adjoint"] = res["adjoint"]
             ctx.fail(res["bucket"], case, res["msg"])
             return
